@@ -226,7 +226,7 @@ def stage_sim(ctx, name, *, num, depth, bases=(0,), consts=None, invariants=None
 METHOD_PROP = {"byte_intervals_on": "C06", "byte_intervals_at": "C06", "sections_on": "C06", "sections_at": "C06",
                "section_address": "C06", "section_size": "C06", "symbolic_expressions_at": "C13",
                "symbolic_expressions_at_offset": "C13", "block_address": "C19", "contains_offset": "C19",
-               "contains_address": "C19"}
+               "contains_address": "C19", "symbols_named": "C10", "references": "C10"}
 
 
 def judge_recorded(ctx, name, consts, rec):
